@@ -1,4 +1,5 @@
 import SigHook.Model.RegistrySeq
+import SigHook.Model.Default
 import SigHook.Gen.Consts
 import SigHook.Model.Env
 /-!
@@ -78,6 +79,25 @@ def regStep (d : RegDrv) (line : String) : RegDrv × String :=
   | ["reset"] => ({}, "reset")
   | _ => (d, "bad-op")
 
+def fmtOutcome : Default.Outcome → String
+  | .continues => "continues" | .stopped => "stopped" | .killedBy n => s!"killedBy:{n}" | .err => "err"
+
+def defaultsStep (_ : Unit) (line : String) : Unit × String :=
+  match line.trimAscii.toString.splitOn " " with
+  | ["emu", n, ctx] =>
+    match parseInt? n, (match ctx with | "normal" => some Default.Ctx.normal | "handler" => some .inHandler
+                                       | "cond" => some .inHandler | _ => none) with
+    | some n, some c =>
+      -- `register_conditional_default` refuses signals without a name before registering
+      let e := if ctx == "cond" && !(Default.known Gen.details n) then Default.Outcome.err
+               else Default.emulate Gen.details n c
+      ((), s!"kernel={fmtOutcome (Default.kernelDefault n)} emul={fmtOutcome e}")
+    | _, _ => ((), "bad-op")
+  | ["name", n] => match parseInt? n with
+    | some n => ((), s!"name {(Default.findName Gen.details n).getD "-"}")
+    | none => ((), "bad-op")
+  | _ => ((), "bad-op")
+
 partial def loop {σ} (h : IO.FS.Stream) (out : IO.FS.Stream) (st : σ) (f : σ → String → σ × String) :
     IO Unit := do
   let line ← h.getLine
@@ -94,4 +114,5 @@ def main (args : List String) : IO UInt32 := do
   let stdout ← IO.getStdout
   match args with
   | ["registry"] => loop stdin stdout ({} : RegDrv) regStep; return 0
+  | ["defaults"] => loop stdin stdout () defaultsStep; return 0
   | _ => IO.eprintln "usage: driver registry"; return 2
